@@ -24,6 +24,7 @@ import (
 	"path/filepath"
 	"strings"
 	"sync/atomic"
+	"time"
 
 	"verif/harness/internal/core"
 )
@@ -216,15 +217,20 @@ func cfRun(c *core.Ctx) {
 	}
 	defer w.close()
 
+	timed := func(name string, f func()) {
+		t0 := time.Now()
+		f()
+		c.Count("confine_worker_wall_ms_"+name, time.Since(t0).Milliseconds())
+	}
 	ok := cfControls(c, w)
 	if cfWant(c, "funcs") {
-		cfRunDefined(c, w)
-		cfRunDNS(c, w)
-		cfRunFiles(c, w)
-		cfRunFuncs(c, w)
+		timed("defined", func() { cfRunDefined(c, w) })
+		timed("dns", func() { cfRunDNS(c, w) })
+		timed("files", func() { cfRunFiles(c, w) })
+		timed("funcs", func() { cfRunFuncs(c, w) })
 	}
 	if cfWant(c, "schema") {
-		cfRunSchema(c, w)
+		timed("schema", func() { cfRunSchema(c, w) })
 	}
 	if n := w.httpReqs.Load(); n > 0 {
 		c.Count("confine_http_requests_attempted", n)
